@@ -64,6 +64,38 @@ static void dumpGeo(Out& o, const std::string& pre, const PolarGrid& g, const Pr
     o.mat(pre + "ab", nr, 2, ab.data());
 }
 
+
+// ---- linearity probes: the basis extraction decides the property only for a LINEAR (affine) operator.  Three generic
+// vectors - O(1), uniformly tiny, uniformly huge - are pushed through the real operator; the oracle compares with the
+// extracted matrix times the vector, so value-dependent shortcuts (absolute thresholds, clamps) cannot hide.
+static const double LIN_SCALES[3] = {1.0, 1e-20, 1e18};
+static std::vector<double> linInput(int n, int k, uint64_t salt)
+{
+    std::vector<double> v(n);
+    for (int i = 0; i < n; i++)
+        v[i] = LIN_SCALES[k] * 0.01 * filler(salt + 31 * k, i);
+    return v;
+}
+template <class F>
+static void linProbe(Out& o, const std::string& name, F&& apply, int nin, int nout, uint64_t salt)
+{
+    std::vector<double> X((size_t)3 * nin), Y((size_t)3 * nout);
+    Vector<double> x(nin), y(nout);
+    for (int k = 0; k < 3; k++) {
+        std::vector<double> v = linInput(nin, k, salt);
+        for (int i = 0; i < nin; i++) {
+            x[i]                   = v[i];
+            X[(size_t)k * nin + i] = v[i];
+        }
+        fill(y, 99 + k);
+        apply(y, x);
+        for (int i = 0; i < nout; i++)
+            Y[(size_t)k * nout + i] = y[i];
+    }
+    o.mat(name + "_linx", 3, nin, X.data());
+    o.mat(name + "_liny", 3, nout, Y.data());
+}
+
 template <class Res>
 static void extractA(Out& o, const std::string& name, const Res& R, int N)
 {
@@ -89,6 +121,15 @@ static void extractA(Out& o, const std::string& name, const Res& R, int N)
     }
     T.write(o, name, N, N);
     o.scalar(name + "_affdev", affdev);
+    linProbe(
+        o, name,
+        [&](Vector<double>& yy, const Vector<double>& xx) {
+            zero(f);
+            R.computeResidual(yy, f, xx);
+            for (int i = 0; i < N; i++)
+                yy[i] = -yy[i];
+        },
+        N, N, 1);
 }
 
 static double ulpDiff(double a, double b)
@@ -210,6 +251,26 @@ static void extractSB(Out& o, const std::string& name, F&& apply, int N)
     }
     o.mat(name + "_S", N, N, S.data());
     o.mat(name + "_B", N, N, B.data());
+    // affine linearity probe: x' for (x, f) = (v_k, w_k)
+    {
+        std::vector<double> XV((size_t)3 * N), FV((size_t)3 * N), YV((size_t)3 * N);
+        for (int k = 0; k < 3; k++) {
+            std::vector<double> v = linInput(N, k, 5), w = linInput(N, k, 9);
+            for (int i = 0; i < N; i++) {
+                x[i]                  = v[i];
+                f[i]                  = w[i];
+                XV[(size_t)k * N + i] = v[i];
+                FV[(size_t)k * N + i] = w[i];
+            }
+            fill(t, 17 + k);
+            apply(x, f, t);
+            for (int i = 0; i < N; i++)
+                YV[(size_t)k * N + i] = x[i];
+        }
+        o.mat(name + "_linx", 3, N, XV.data());
+        o.mat(name + "_linf", 3, N, FV.data());
+        o.mat(name + "_liny", 3, N, YV.data());
+    }
 }
 
 // bitwise invariance of coarse nodes under extrapolated smoothing
@@ -267,6 +328,7 @@ static void extractOp(Out& o, const std::string& name, F&& apply, int nin, int n
                 T.add(i, j, y[i]);
     }
     T.write(o, name, nout, nin);
+    linProbe(o, name, apply, nin, nout, 3);
 }
 
 static void runThreaded(const Case& c, Out& o, const Problem& p, const PolarGrid& grid, const std::string& what,
